@@ -28,6 +28,109 @@ pub enum Target {
     VecChoice,
     OptHolder,
     UnitVec,
+    /// sequences/maps through a counting visitor: more items than input bytes = unbounded
+    VecOptString,
+    VecOptInner,
+    VecOptU8,
+    VecUnit,
+    VecVecString,
+    BoundedMap,
+    TupleOpts,
+    ValueOptStr,
+    ValueOptChoice,
+    ValueOptInner,
+    NestedOpts,
+}
+
+/// `$value` / `$text` fields of optional type (xsi:nil handling paths)
+#[derive(Deserialize, Debug)]
+#[allow(dead_code)]
+pub struct ValueOptStr {
+    #[serde(rename = "@a", default)]
+    a: Option<String>,
+    #[serde(rename = "$value")]
+    v: Option<String>,
+}
+#[derive(Deserialize, Debug)]
+#[allow(dead_code)]
+pub struct ValueOptChoice {
+    #[serde(rename = "$value")]
+    v: Option<Choice>,
+}
+#[derive(Deserialize, Debug)]
+#[allow(dead_code)]
+pub struct ValueOptInner {
+    #[serde(rename = "$value", default)]
+    v: Option<Vec<Choice>>,
+    #[serde(default)]
+    a: Option<ValueOptStr>,
+}
+#[derive(Deserialize, Debug)]
+#[allow(dead_code)]
+pub struct NestedOpts {
+    a: Option<ValueOptStr>,
+    b: Option<Box<NestedOpts>>,
+    #[serde(default)]
+    c: Vec<Option<ValueOptChoice>>,
+}
+
+thread_local! {
+    static SEQ_BUDGET: std::cell::Cell<usize> = std::cell::Cell::new(usize::MAX);
+}
+pub const UNBOUNDED: &str = "QXV-UNBOUNDED-SEQUENCE";
+
+/// `Vec<T>` whose visitor gives up (with a recognisable error) after more items than the
+/// per-case budget (input length + 16): every item of a sequence must consume input
+#[derive(Debug)]
+pub struct Bounded<T>(pub Vec<T>);
+impl<'de, T: Deserialize<'de>> Deserialize<'de> for Bounded<T> {
+    fn deserialize<D: serde::Deserializer<'de>>(d: D) -> Result<Self, D::Error> {
+        struct V<T>(std::marker::PhantomData<T>);
+        impl<'de, T: Deserialize<'de>> serde::de::Visitor<'de> for V<T> {
+            type Value = Bounded<T>;
+            fn expecting(&self, f: &mut std::fmt::Formatter) -> std::fmt::Result {
+                f.write_str("a sequence")
+            }
+            fn visit_seq<A: serde::de::SeqAccess<'de>>(self, mut a: A) -> Result<Self::Value, A::Error> {
+                let mut out = vec![];
+                let budget = SEQ_BUDGET.with(|b| b.get());
+                while let Some(x) = a.next_element::<T>()? {
+                    out.push(x);
+                    if out.len() > budget {
+                        return Err(serde::de::Error::custom(UNBOUNDED));
+                    }
+                }
+                Ok(Bounded(out))
+            }
+        }
+        d.deserialize_seq(V(std::marker::PhantomData))
+    }
+}
+#[derive(Debug)]
+pub struct BoundedMap(pub usize);
+impl<'de> Deserialize<'de> for BoundedMap {
+    fn deserialize<D: serde::Deserializer<'de>>(d: D) -> Result<Self, D::Error> {
+        struct V;
+        impl<'de> serde::de::Visitor<'de> for V {
+            type Value = BoundedMap;
+            fn expecting(&self, f: &mut std::fmt::Formatter) -> std::fmt::Result {
+                f.write_str("a map")
+            }
+            fn visit_map<A: serde::de::MapAccess<'de>>(self, mut a: A) -> Result<Self::Value, A::Error> {
+                let mut n = 0;
+                let budget = SEQ_BUDGET.with(|b| b.get());
+                while let Some(_k) = a.next_key::<String>()? {
+                    let _v: Bounded<Option<IgnoredAny>> = a.next_value()?;
+                    n += 1;
+                    if n > budget {
+                        return Err(serde::de::Error::custom(UNBOUNDED));
+                    }
+                }
+                Ok(BoundedMap(n))
+            }
+        }
+        d.deserialize_map(V)
+    }
 }
 
 #[derive(Deserialize, Debug)]
@@ -88,6 +191,51 @@ pub const ALL_EXTRA: &[Target] = &[
     Target::VecChoice,
     Target::OptHolder,
     Target::UnitVec,
+    Target::VecOptString,
+    Target::VecOptInner,
+    Target::VecOptU8,
+    Target::VecUnit,
+    Target::VecVecString,
+    Target::BoundedMap,
+    Target::TupleOpts,
+    Target::ValueOptStr,
+    Target::ValueOptChoice,
+    Target::ValueOptInner,
+    Target::NestedOpts,
+];
+
+/// valid-looking base documents for the extra targets (the family targets get theirs from
+/// serialized values)
+pub const EXTRA_DOCS: &[&str] = &[
+    "<r a=\"1\">text</r>",
+    "<r a=\"1\"><Unit/></r>",
+    "<r><Newtype>x</Newtype></r>",
+    "<r><a a=\"1\">t</a><b><a>u</a><c><Unit/></c></b><c>text</c><c/></r>",
+    "<r><Struct y=\"1\"><x>2</x></Struct>t<Unit/></r>",
+    "<r><a>x</a><a>y</a><b>z</b></r>",
+    "<a>1</a><a>2</a>",
+    "<a>x</a><![CDATA[]]><a/>",
+    "<r><k1>v</k1><k2>w</k2></r>",
+    "text",
+    "<r a=\"\"><v>x</v></r>",
+];
+
+/// attribute snippets injected into start tags
+pub const ATTR_SNIPPETS: &[&str] = &[
+    " xmlns:xsi=\"http://www.w3.org/2001/XMLSchema-instance\" xsi:nil=\"true\"",
+    " xsi:nil=\"true\" xmlns:xsi=\"http://www.w3.org/2001/XMLSchema-instance\"",
+    " xmlns:n=\"http://www.w3.org/2001/XMLSchema-instance\" n:nil=\"1\"",
+    " xmlns:xsi=\"http://www.w3.org/2001/XMLSchema-instance\" xsi:nil=\"false\"",
+    " xsi:nil=\"true\"",
+    " nil=\"true\"",
+    " a=\"1\"",
+    " a=\"1\" a=\"2\"",
+    " zz=\"&unknown;\"",
+    " zz='&lt;'",
+    " xmlns=\"u\"",
+    " a=1",
+    " a",
+    " xmlns:xsi=\"http://www.w3.org/2001/XMLSchema-instance\"",
 ];
 
 #[derive(Clone, Debug, Serialize, Deserialize, PartialEq)]
@@ -102,7 +250,7 @@ pub fn info() -> PropInfo {
         id: "C07",
         run,
         replay,
-        rule: "cases = (target type, input text, entry point from_str or from_reader over a 3-byte BufReader). Targets: the 18 family types plus tuples, Vec of tuples, Option<struct>, (), String, HashMap, a struct of IgnoredAny, an enum with #[serde(other)] and $text, Vec<String>, bool, f64, char, Vec<enum>, a struct of Options incl. $text, lists of units. Inputs: valid documents (serialized generated values) after token-level mutation (insert/delete/duplicate/splice/replace of start tags, end tags, text, CDATA, comments, DOCTYPE incl. internal subsets, PIs, declarations, valid/unknown/malformed references, xsi:nil attributes, duplicate and malformed attributes), token soup over the same vocabulary, and every truncation of valid documents at every byte. Oracle: the call returns Ok or Err (catch_unwind); a watchdog maps hangs to exit 2. Non-trivial = the input was mutated/truncated/soup and the event reader accepts its first event (it is not rejected at once).",
+        rule: "cases = (target type, input text, entry point from_str or from_reader over a 3-byte BufReader). Targets: the 18 family types plus tuples, Vec of tuples, Option<struct>, (), String, HashMap, a struct of IgnoredAny, an enum with #[serde(other)] and $text, Vec<String>, bool, f64, char, Vec<enum>, a struct of Options incl. $text, lists of units. Inputs: valid documents (serialized generated values) after token-level mutation (insert/delete/duplicate/splice/replace of start tags, end tags, text, CDATA, comments, DOCTYPE incl. internal subsets, PIs, declarations, valid/unknown/malformed references, xsi:nil attributes, duplicate and malformed attributes), token soup over the same vocabulary, and every truncation of valid documents at every byte. Oracle: the call returns Ok or Err (catch_unwind); sequence/map targets use a counting visitor and a sequence that yields more items than the input has bytes is reported as non-termination; a watchdog maps other hangs to exit 2. Non-trivial = the input was mutated/truncated/soup and the event reader accepts its first event (it is not rejected at once).",
         assumptions: &["a stack overflow on pathologically deep input would abort the process (reported as exit != 0/1 by the runner, not as a violation); generated nesting stays below 64"],
         level: "exploration",
         variants: &["full", "min"],
@@ -142,12 +290,29 @@ pub fn try_de(t: &Target, xml: &str, via_reader: bool) -> Result<(), String> {
         Target::VecChoice => go!(Vec<Choice>),
         Target::OptHolder => go!(OptHolder),
         Target::UnitVec => go!(UnitVec),
+        Target::VecOptString => go!(Bounded<Option<String>>),
+        Target::VecOptInner => go!(Bounded<Option<Inner>>),
+        Target::VecOptU8 => go!(Bounded<Option<u8>>),
+        Target::VecUnit => go!(Bounded<()>),
+        Target::VecVecString => go!(Bounded<Bounded<String>>),
+        Target::BoundedMap => go!(BoundedMap),
+        Target::TupleOpts => go!((Option<String>, Option<Inner>, Option<()>)),
+        Target::ValueOptStr => go!(ValueOptStr),
+        Target::ValueOptChoice => go!(ValueOptChoice),
+        Target::ValueOptInner => go!(ValueOptInner),
+        Target::NestedOpts => go!(NestedOpts),
     }
 }
 
 pub fn check(c: &Case) -> Verdict {
     // the call itself runs under the engine's catch_unwind
+    SEQ_BUDGET.with(|b| b.set(c.input.len() + 16));
     let res = try_de(&c.target, &c.input, c.via_reader);
+    if let Err(e) = &res {
+        if e.contains(UNBOUNDED) {
+            return Verdict::fail(format!("a sequence/map yielded more items than the input has bytes ({}): deserialization does not terminate | target {:?} | input {:?}", c.input.len(), c.target, c.input));
+        }
+    }
     let first_ok = {
         let mut r = quick_xml::Reader::from_str(&c.input);
         r.read_event().is_ok()
@@ -197,7 +362,17 @@ pub fn apply_edits(doc: &str, edits: &[Edit]) -> String {
         let n = toks.len();
         let at = scale(e.pos, n + 1);
         let word = VOCAB[scale(e.vocab, VOCAB.len())].to_string();
-        match e.kind % 6 {
+        match e.kind % 8 {
+            6 | 7 => {
+                // add attributes to an existing start/empty tag (xsi:nil, duplicates, malformed)
+                let tags: Vec<usize> = (0..n).filter(|k| toks[*k].starts_with('<') && toks[*k].ends_with('>') && !toks[*k].starts_with("</") && !toks[*k].starts_with("<!") && !toks[*k].starts_with("<?")).collect();
+                if let Some(&k) = tags.get(scale(e.pos, tags.len().max(1)).min(tags.len().saturating_sub(1))) {
+                    let snippet = ATTR_SNIPPETS[scale(e.vocab, ATTR_SNIPPETS.len())];
+                    let t = toks[k].clone();
+                    let cut = if t.ends_with("/>") { t.len() - 2 } else { t.len() - 1 };
+                    toks[k] = format!("{}{}{}", &t[..cut], snippet, &t[cut..]);
+                }
+            }
             0 => toks.insert(at, word),
             1 if n > 0 => {
                 toks.remove(at.min(n - 1));
@@ -232,16 +407,19 @@ fn target_strategy() -> impl Strategy<Value = Target> {
 }
 
 pub fn edit_strategy() -> impl Strategy<Value = Edit> {
-    (0u8..6, any::<u16>(), any::<u16>(), any::<u16>()).prop_map(|(kind, pos, pos2, vocab)| Edit { kind, pos, pos2, vocab })
+    (0u8..8, any::<u16>(), any::<u16>(), any::<u16>()).prop_map(|(kind, pos, pos2, vocab)| Edit { kind, pos, pos2, vocab })
 }
 
 fn run(ctx: &Ctx) {
     ctx.run_regress::<Case, _>(check);
     // (a) mutated valid documents
     let mutated = || {
-        Box::new((any_val(), opts_strategy(), prop::collection::vec(edit_strategy(), 1..5), target_strategy(), 0u8..4, any::<bool>()).prop_map(|(val, opts, edits, other, pick, via_reader)| {
-            let doc = val.serialize_with(&opts).unwrap_or_else(|_| "<r/>".to_string());
+        Box::new((any_val(), opts_strategy(), prop::collection::vec(edit_strategy(), 1..5), target_strategy(), 0u8..4, any::<bool>(), any::<u16>()).prop_map(|(val, opts, edits, other, pick, via_reader, extra)| {
+            let mut doc = val.serialize_with(&opts).unwrap_or_else(|_| "<r/>".to_string());
             let target = if pick == 0 { other } else { Target::Fam(val.ty()) };
+            if !matches!(target, Target::Fam(_)) && extra % 4 != 0 {
+                doc = EXTRA_DOCS[scale(extra, EXTRA_DOCS.len())].to_string();
+            }
             Case { target, input: apply_edits(&doc, &edits), via_reader }
         }))
     };
@@ -269,6 +447,32 @@ fn run(ctx: &Ctx) {
         |i| {
             let (t, d) = &docs[i as usize];
             (0..d.len()).filter(|k| d.is_char_boundary(*k)).map(|k| Case { target: Target::Fam(*t), input: d[..k].to_string(), via_reader: k % 2 == 1 }).collect()
+        },
+        check,
+    );
+    // every attribute snippet on every tag of the extra base documents, for every extra target
+    ctx.run_groups(
+        "extra-docs-x-every-attribute-snippet-x-every-target",
+        EXTRA_DOCS.len() as u64,
+        true,
+        |i| {
+            let toks = tokens_of(EXTRA_DOCS[i as usize]);
+            let mut out = vec![];
+            for (k, t) in toks.iter().enumerate() {
+                if !(t.starts_with('<') && !t.starts_with("</") && !t.starts_with("<!")) {
+                    continue;
+                }
+                for sn in ATTR_SNIPPETS {
+                    let mut v = toks.clone();
+                    let cut = if t.ends_with("/>") { t.len() - 2 } else { t.len() - 1 };
+                    v[k] = format!("{}{}{}", &t[..cut], sn, &t[cut..]);
+                    let doc = v.concat();
+                    for target in ALL_EXTRA {
+                        out.push(Case { target: target.clone(), input: doc.clone(), via_reader: false });
+                    }
+                }
+            }
+            out
         },
         check,
     );
